@@ -84,6 +84,8 @@ def jobs(tier, seed):
     for s_ in (None, -1, 2):
         add("c02", "C02.index", dict(R=2, L=2, B=3, ck="slice", cstep=s_, rk="all", huge=True))          # slice bounds around +-2^40 under both widths
         add("c02", "C02.index", dict(R=2, L=2, B=3, ck="none", rk="slice", rstep=s_, huge=True))
+    add("c02", "C02.pairs", dict(R=2, L=2, k=2, B=3))
+    add("c02", "C02.pairs", dict(R=2, L=2, k=1, B=3, huge=True))          # element positions beyond the 32-bit range are refused under both widths
     b3 = dict(R=2, L=3, B=3)
     for rk in [dict(rk="all"), dict(rk="list", k=2), dict(rk="slice", rstep=-1, rpres=[(1, 0)], RB=2), dict(rk="mask")]:
         for vk in ("scalar", "flat", "ragged"):
